@@ -166,6 +166,22 @@ macro_rules! seq_probe {
         }
     };
 }
+/// concrete sequences of booleans of length 2 and 3 (the symbolic (bool, bool) / (bool, bool, bool) harnesses above exceed 14 GB under CBMC and are not registered)
+#[kani::proof]
+#[kani::unwind(40)]
+#[kani::stub(alloc::fmt::format, stub_format)]
+#[kani::stub(crate::percent_encoding::percent_decode, spec_percent_decode)]
+#[kani::stub(crate::percent_encoding::percent_decode_utf8, spec_percent_decode_utf8)]
+#[kani::stub(crate::percent_encoding::percent_encode, spec_percent_encode)]
+#[kani::stub(std::str::from_utf8, stub_from_utf8)]
+fn c09_seq_bools_concrete() {
+    let a = (true, false);
+    let back: Option<(bool, bool)> = de_value(ser_value(&a));
+    assert!(back == Some(a), "urlencoded: the serialized value decodes back to an equal value");
+    let b = (false, false, true);
+    let back: Option<(bool, bool, bool)> = de_value(ser_value(&b));
+    assert!(back == Some(b), "urlencoded: the serialized value decodes back to an equal value");
+}
 seq_probe!(c09_seq_strings_concrete, [("a", "b"), ("a,", "&"), ("=", "%2")]);
 // KNOWN FINDING KF-C09-empty-first-seq-element: the serializer decides "first element" by `output.ends_with('=')`, so an EMPTY first element is lost
 seq_probe!(c09_seq_empty_first_element, [("", "x")]);
